@@ -71,6 +71,14 @@ impl<Out: ExchangeData> Batcher<Out> {
 
     /// Put a message in the batch queue, it won't be sent immediately.
     pub(crate) fn enqueue(&mut self, message: StreamElement<Out>) {
+        #[cfg(feature = "verif")]
+        let _verif_scope = crate::verif::BatcherScope::new();
+        #[cfg(feature = "verif")]
+        crate::verif::emit(|| {
+            serde_json::json!({"ev": "enq", "from": crate::verif::coord_str(self.coord),
+                "to": crate::verif::endpoint_str(self.remote_sender.receiver_endpoint),
+                "el": crate::verif::element(&message)})
+        });
         match self.mode {
             BatchMode::Adaptive(n, max_delay) => {
                 self.buffer.push(message);
@@ -94,6 +102,8 @@ impl<Out: ExchangeData> Batcher<Out> {
 
     /// Flush the internal buffer if it's not empty.
     pub(crate) fn flush(&mut self) {
+        #[cfg(feature = "verif")]
+        let _verif_scope = crate::verif::BatcherScope::new();
         if !self.buffer.is_empty() {
             let cap = self.buffer.capacity();
             let new_cap = if self.buffer.len() < cap / 4 {
@@ -111,6 +121,8 @@ impl<Out: ExchangeData> Batcher<Out> {
 
     /// Tell the batcher that the stream is ended, flush all the remaining messages.
     pub(crate) fn end(self) {
+        #[cfg(feature = "verif")]
+        let _verif_scope = crate::verif::BatcherScope::new();
         // Send the remaining messages
         if !self.buffer.is_empty() {
             let message = NetworkMessage::new_batch(self.buffer, self.coord);
